@@ -92,9 +92,11 @@ class KrausChannel(raw_types.Gate):
     def _with_measurement_key_mapping_(self, key_map: Mapping[str, str]):
         if self._key is None:
             return NotImplemented
-        if self._key not in key_map:
+        # Only the name is mapped: a path the key already carries is kept, as for measurements.
+        key = protocols.with_measurement_key_mapping(self._key, key_map)
+        if key == self._key:
             return self
-        return KrausChannel(kraus_ops=self._kraus_ops, key=key_map[str(self._key)])
+        return KrausChannel(kraus_ops=self._kraus_ops, key=key)
 
     def _with_key_path_(self, path: tuple[str, ...]):
         return KrausChannel(kraus_ops=self._kraus_ops, key=protocols.with_key_path(self._key, path))
